@@ -17,7 +17,7 @@ BORROW = [
     "pv.corpora.c18",
 ]  # fmt: skip
 
-CORE_PREFIXES = ("c02.t.", "c03.", "c04.t.", "c04.g.", "c05.pos.", "c05.arr", "c05.grouping", "c05.typed", "c06.", "c07.", "c09.", "c16.refs", "c16.self_join", "c17.", "c18.eq", "c01.tm.")
+CORE_PREFIXES = ("c02.t.", "c03.", "c04.t.", "c04.g.", "c05.pos.", "c05.arr", "c05.win.", "c05.grouping", "c05.typed", "c06.", "c07.", "c09.", "c16.refs", "c16.self_join", "c17.", "c18.eq", "c01.tm.")
 
 
 def templates(cfg):
